@@ -12,7 +12,8 @@ Local Open Scope N_scope.
 Inductive c11_op :=
 | CDraw (k : nat) (pos : N * N)                 (* draw(images[k], pos) *)
 | CErase (k : nat) (pos : option (N * N))       (* erase(images[k], pos) *)
-| CResp (id : N) (pl : option N) (err : bool)   (* handle(KittyImage { id, placement, error }) *)
+| CResp (id : N) (pl : option N) (err : bool) (lost : bool)
+    (* handle(KittyImage { id, placement, error }); lost: the terminal side is taken to have lost the image *)
 | COther.                                       (* handle(some other event) *)
 
 (* image as the implementation holds it (backing data, shape), the value of Surface::hash,
@@ -36,7 +37,7 @@ Definition model_op (imgs : list c11_img) (o : c11_op) : op :=
   match o with
   | CDraw k pos => let '(im, h, _) := nth k imgs dummy_img in OpDraw im h pos
   | CErase k pos => let '(im, h, _) := nth k imgs dummy_img in OpErase im h pos
-  | CResp id pl err => OpEvent (EvKitty id pl err)
+  | CResp id pl err _ => OpEvent (EvKitty id pl err)
   | COther => OpEvent EvOther
   end.
 
@@ -44,7 +45,7 @@ Definition spec_op (imgs : list c11_img) (o : c11_op) : sop :=
   match o with
   | CDraw k pos => SDraw (snd (nth k imgs dummy_img)) pos
   | CErase k pos => SErase (snd (nth k imgs dummy_img)) pos
-  | CResp id pl err => SResp id pl err
+  | CResp id pl err lost => SResp id pl err lost
   | COther => SOther
   end.
 
